@@ -11,7 +11,8 @@ Leaves that the model keeps abstract come from labels on the op line:
 -/
 import Drand.Codec.Mirror
 import Drand.Driver.Hash
-namespace Drand.Driver
+namespace Drand.Driver.CodecD
+open Drand.Driver.HashD
 open Drand Drand.Codec
 
 abbrev Dump := List (String × String)
@@ -360,4 +361,4 @@ def codecStep (ws : List String) : String :=
     | _ => "bad-op"
   | _ => "bad-op"
 
-end Drand.Driver
+end Drand.Driver.CodecD
